@@ -171,7 +171,7 @@ def run_eval(op, key, pool, args, ctx, tmpdir):
             smp = arr(np.abs(np.asarray(ghm.draw_sample(800, random_state=seed))) + 1e-3)
             np.random.seed(seed % (2**32))
             if name == "ds":
-                c = virocon.DirectSamplingContour(model, op["alpha"], deg_step=20, sample=smp)
+                c = virocon.DirectSamplingContour(model, op["alpha"], n=(300 if seed % 2 else None), deg_step=20, sample=smp)
             elif name == "and":
                 c = virocon.AndContour(model, max(op["alpha"], 0.02), deg_step=15, sample=smp, allowed_error=0.2)
             else:
